@@ -64,6 +64,10 @@ func (o *OvsMap) UnmarshalJSON(b []byte) (err error) {
 			default:
 				k = f[0]
 			}
+			if k != nil && !reflect.TypeOf(k).Comparable() {
+				// sets, maps and other composite values cannot be keys
+				return malformed
+			}
 			switch f[1].(type) {
 			case []interface{}:
 				vSet := f[1].([]interface{})
